@@ -207,9 +207,14 @@ func (g *sg) chance(label string, pct int) bool { return g.n(label, 0, 99) < pct
 
 var (
 	valueNames = []string{"x", "y", "z", "i", "v", "main", "f", "g", "h", "e", "println", "print", "debug", "assert", "fmt", "log", "time", "throw", "exit",
-		"assert_eq", "any_func", "any_list", "minute", "FooFeature", "T", "U", "nosuch", "undefined", "_", "self", "m", "int", "null"}
+		"assert_eq", "any_func", "any_list", "minute", "FooFeature", "T", "U", "nosuch", "undefined", "self", "m", "int", "null",
+		"x", "y", "f", "g", "main", "println"}
+	identNames = []string{"x", "y", "z", "i", "v", "main", "f", "g", "h", "e", "println", "print", "debug", "assert", "fmt", "log", "time", "throw", "exit",
+		"assert_eq", "any_func", "any_list", "minute", "FooFeature", "T", "U", "nosuch", "undefined", "self", "m", "int"}
+	typeDefNames = []string{"T", "U", "V", "W", "D", "f", "x", "T", "U", "V", "W", "D", "T", "U", "nosuch", "int", "_"}
 	typeNames  = []string{"int", "str", "bool", "float", "null", "any", "range", "T", "U", "V", "W", "nosuch", "_", "FooFeature", "f", "x"}
 	fieldNames = []string{"a", "b", "len", "push", "pop", "to_string", "unwrap", "is_some", "keys", "sleep", "now", "x", "_", "get", "dim", "set_temp", `"a b"`, `"a"`}
+	memberNames = []string{"a", "b", "len", "push", "pop", "to_string", "unwrap", "is_some", "keys", "sleep", "now", "x", "_", "get", "dim", "set_temp", "status", "year", "concat", "join", "contains", "split", "nosuch"}
 	infixOps   = []string{"+", "-", "*", "/", "%", "**", "<<", ">>", "|", "&", "^", "||", "&&", "==", "!=", "<", "<=", ">", ">="}
 	assignOps  = []string{"=", "+=", "-=", "*=", "/=", "**=", "%=", "<<=", ">>=", "|=", "&=", "^="}
 	simpleLits = []string{"0", "1", "2", "42", "1.5", "1f", "true", "false", "on", "off", "null", "none", `""`, `"a"`, `'b'`, `"é"`, "9223372036854775807", "[]", "new {}", "new { ? }"}
@@ -320,17 +325,20 @@ func (g *sg) expr(d int) string {
 	case 7, 8, 9:
 		return g.expr(d-1) + " " + g.pick("infix", infixOps) + " " + g.expr(d-1)
 	case 10:
-		return g.expr(d-1) + " " + g.pick("assign", assignOps) + " " + g.expr(d-1)
+		if g.chance("assign-parens", 85) {
+			return "(" + g.lhs(d-1) + " " + g.pick("assign", assignOps) + " " + g.expr(d-1) + ")"
+		}
+		return g.lhs(d-1) + " " + g.pick("assign", assignOps) + " " + g.expr(d-1)
 	case 11, 12, 13:
 		return g.expr(d-1) + g.args(d)
 	case 14:
 		return g.expr(d-1) + "[" + g.expr(d-1) + "]"
 	case 15, 16:
-		return g.expr(d-1) + g.pick("memberop", []string{".", ".", "->", "~>"}) + strings.Trim(g.pick("field", fieldNames), `"`+" ")
+		return g.expr(d-1) + g.pick("memberop", []string{".", ".", ".", "->", "~>"}) + g.pick("member", memberNames)
 	case 17:
 		return g.expr(d-1) + " as " + g.typ(2)
 	case 18:
-		return "spawn " + g.pick("name", valueNames) + g.args(d)
+		return "spawn " + g.pick("spawned", identNames) + g.args(d)
 	case 19:
 		return g.block(d)
 	case 20:
@@ -373,8 +381,24 @@ func (g *sg) expr(d int) string {
 	}
 }
 
+// lhs: mostly something assignable, sometimes anything
+func (g *sg) lhs(d int) string {
+	switch g.n("lhs", 0, 24) {
+	case 0, 1, 2, 3, 10, 11, 12, 13, 14, 15, 16, 17, 18, 19, 20, 21, 22, 23, 24:
+		return g.pick("name", identNames)
+	case 4, 5:
+		return g.expr(d) + "." + g.pick("member", memberNames)
+	case 6, 7:
+		return g.expr(d) + "[" + g.expr(d) + "]"
+	case 8:
+		return g.pick("name", identNames) + " as " + g.typ(1)
+	default:
+		return g.expr(d)
+	}
+}
+
 func (g *sg) let(pub bool) string {
-	s := "let " + g.pick("letname", valueNames)
+	s := "let " + g.pick("letname", append([]string{"_"}, identNames...))
 	if pub {
 		s = "pub " + s
 	}
@@ -390,7 +414,7 @@ func (g *sg) stmt(d int) string {
 	case 0, 1, 2:
 		return g.let(false)
 	case 3:
-		return "type " + g.pick("tdef", typeNames) + " = " + g.typ(3) + ";"
+		return "type " + g.pick("tdef", typeDefNames) + " = " + g.typ(3) + ";"
 	case 4:
 		if g.chance("retval", 60) {
 			return "return " + g.expr(d) + ";"
@@ -403,9 +427,11 @@ func (g *sg) stmt(d int) string {
 	case 7:
 		return "while " + g.expr(d) + " " + g.block(d)
 	case 8:
-		return "for " + g.pick("forname", valueNames) + " in " + g.expr(d) + " " + g.block(d)
+		return "for " + g.pick("forname", append([]string{"_"}, identNames...)) + " in " + g.expr(d) + " " + g.block(d)
 	case 9:
-		return "trigger " + g.pick("cb", valueNames) + " " + g.pick("conn", []string{"on", "at", "in"}) + " " + g.pick("trig", valueNames) + g.args(d) + ";"
+		return "trigger " + g.pick("cb", identNames) + " " + g.pick("conn", []string{"on", "at", "in"}) + " " + g.pick("trig", identNames) + g.args(d) + ";"
+	case 10, 11:
+		return g.lhs(d) + " " + g.pick("assign", assignOps) + " " + g.expr(d) + ";"
 	default:
 		e := g.expr(d + 1)
 		if g.chance("semicolon", 90) {
@@ -415,9 +441,9 @@ func (g *sg) stmt(d int) string {
 	}
 }
 
-func (g *sg) fn(name string) string {
+func (g *sg) fn(name string, top bool) string {
 	s := ""
-	if g.chance("annotated", 12) {
+	if top && g.chance("annotated", 12) {
 		s = "#[" + g.pick("annot", []string{"foo", "trigger at minute(1)", "trigger on minute(x, 2)", "trigger in nosuch()", "foo, bar", "trigger at f()"}) + "] "
 	}
 	switch {
@@ -457,13 +483,13 @@ func (g *sg) item() string {
 	case 3:
 		return "$" + g.pick("sname", []string{"S", "R"}) + " = " + g.pick("styp", []string{g.typ(2), "{ @setting a: int, b: str }", "{ @nosuch a: int }"}) + ";"
 	case 4, 5:
-		return g.pick("pubt", []string{"", "pub "}) + "type " + g.pick("tdef", typeNames) + " = " + g.typ(3) + ";"
+		return g.pick("pubt", []string{"", "pub "}) + "type " + g.pick("tdef", typeDefNames) + " = " + g.typ(3) + ";"
 	case 6, 7, 8, 9:
 		return g.let(g.chance("publet", 30))
 	case 10:
 		var ms []string
 		for i, k := 0, g.n("methods", 0, 2); i < k; i++ {
-			ms = append(ms, g.fn(g.pick("mname", []string{"dim", "set_temp", "f", "main"})))
+			ms = append(ms, g.fn(g.pick("mname", []string{"dim", "set_temp", "f", "main"}), false))
 		}
 		with := ""
 		if g.chance("with", 50) {
@@ -471,7 +497,7 @@ func (g *sg) item() string {
 		}
 		return "impl " + g.pick("templ", []string{"FooFeature", "U", "nosuch", "f"}) + with + " for $" + g.pick("sname", []string{"S", "R", "nosuch"}) + " { " + strings.Join(ms, " ") + " }"
 	default:
-		return g.fn(g.pick("fname", []string{"f", "g", "h", "main", "x", "e", "_"}))
+		return g.fn(g.pick("fname", []string{"f", "g", "h", "main", "x", "e", "_"}), true)
 	}
 }
 
